@@ -57,6 +57,9 @@ def h_resolution(y1: int, mo1: int, d1: int, h1: int, mi1: int, y2: int, mo2: in
     val.mod = MOD
     val.timex = 'TX'
     mn = DateUtils.min_value
+    if DTYPE in ('datetime', 'datetimerange'):
+        # a date-time on a non-existent date: the parsers combine the min-value DATE with the real time of day ('0001-01-01 03:30:00')
+        mn = datetime(1, 1, 1, h2, mi2, 9)
     if DTYPE in SINGLE:
         # past candidate a, future candidate b
         fut_dt = mn if FUT == 'min' else b
